@@ -774,6 +774,25 @@ func isRiffSizeClass(b []byte) bool {
 }
 
 func evalInput(c *Ctx, kind string, b []byte) {
+	// exact-size carrier: len == cap, so that a read past the end of the input panics here as it
+	// would for a caller's exact slice instead of silently reading spare capacity of the generator's buffer
+	exact := make([]byte, len(b))
+	copy(exact, b)
+	b = exact[:len(exact):len(exact)]
+	if len(b) > 0 && len(b) < 4096 {
+		// the same bytes with garbage-filled spare capacity behind them: the demuxer outcome must not
+		// depend on it (observation only: C17 owns "depends only on the bytes given")
+		spare := make([]byte, len(b), len(b)+64)
+		copy(spare, b)
+		for i := len(b); i < cap(spare); i++ {
+			spare[:cap(spare)][i] = byte(0xA5 ^ i)
+		}
+		l1, _ := muxh.DemuxLine(b)
+		l2, _ := muxh.DemuxLine(spare)
+		if l1 != l2 {
+			c.Count("observation: demuxer result depends on bytes beyond len (spare capacity)")
+		}
+	}
 	c.D.Evaluations++
 	c.Count("mut-" + kind)
 	hx := "-"
